@@ -50,6 +50,7 @@ static inline uint64_t spec_f64_bits(double f) { union { double f; uint64_t u; }
 /* native replay: CBMC primitives used in preconditions */
 #define __CPROVER_overflow_mult(a, b) __builtin_mul_overflow_p((a), (b), (__typeof__((a) * (b)))0)
 #define __CPROVER_overflow_plus(a, b) __builtin_add_overflow_p((a), (b), (__typeof__((a) + (b)))0)
+#define __CPROVER_pointer_in_range_dfcc(lo, p, hi) ((const char *)(lo) <= (const char *)(p) && (const char *)(p) <= (const char *)(hi))
 #endif
 
 #endif
